@@ -224,6 +224,26 @@ def run_property(prop, tier='quick', root='/repo', overrides=None, write=True, q
             lines.append(f'ANALYSIS-ERROR property={prop} undecided {o.rule} {o.file}:{o.line} in {o.function}: '
                          f'{o.detail} [{o.construct}]')
         code = 2
+    if tier == 'thorough' and overrides is None and code == 0:
+        # the checker validates itself: stubs against the installed sources, rules against the mutant / twin / seeded corpus
+        try:
+            from .thorough import selftest, stub_conformance
+            facts = stub_conformance()
+            ctx.stubs = [dict(fact=f, holds=bool(ok)) for f, ok in facts]
+            bad = [f for f, ok in facts if not ok]
+            st = selftest(prop, root)
+            ctx.selftest = st
+            if bad:
+                lines.append(f'ANALYSIS-ERROR property={prop} library stub disagrees with the installed source: {bad[0]}')
+                code = 2
+            if st['failures']:
+                lines.append(f'ANALYSIS-ERROR property={prop} self-validation failed: ' + '; '.join(st['failures'][:5]))
+                code = 2
+            lines.append(f'SELFTEST property={prop} mutants {st["mutants_killed"]}/{st["mutants_applicable"]} seeded {st["seeds_caught"]}/{st["seeds_total"]} '
+                         f'twins silent {st["twins_silent"]}/{st["twins_total"]} stub facts {len(facts) - len(bad)}/{len(facts)}')
+        except AnalysisError as e:
+            lines.append(f'ANALYSIS-ERROR property={prop} {e}')
+            code = 2
     if code == 0:
         lines.append(f'OK property={prop} obligations={len(ctx.obs)} discharged='
                      f'{sum(1 for o in ctx.obs if o.status == "discharged")} known_findings={len(known_hits)}')
@@ -288,6 +308,8 @@ def write_evidence(prop, tier, seed, ctx, wall, nviol, error=None):
     )
     if ctx is not None and getattr(ctx, 'selftest', None):
         cov['selftest'] = ctx.selftest
+    if ctx is not None and getattr(ctx, 'stubs', None):
+        cov['stub_conformance'] = ctx.stubs
     if error:
         cov['analysis_error'] = error
     ev = dict(property_id=prop, tier=tier, seed=seed, level='other', coverage=cov,
